@@ -37,7 +37,7 @@ EXPLANATION = (
     "flat result must be entrywise the flat=False result, and every recorded evaluation of f must perturb at most one input.  "
     "(b) The real DiffRHS is driven through EVERY operation history of the stated length over {J: jac(t_k, y_k) with fresh "
     "symbolic t_k (and y_k), H: hook_jacobian_call(fn_k), U: unhook_jacobian_call(), A: rhs.jac = fn_k, B: "
-    "set_jac_base_order(4), thorough also C: set_jac_base_order(2)}; the instance fixes the first operation(s), the others are "
+    "set_jac_base_order(4), K: replace the wrapper by copy.copy(wrapper) as OdeSystem(...) does (the attached Jacobian must carry over, njev restarts), thorough also C: set_jac_base_order(2)}; the instance fixes the first operation(s), the others are "
     "chosen by solver variables, so each history is a set of paths.  Wrapped rhs: a class instance f(t, y) = (A0 + t*A1).y with "
     "symbolic A0, A1, with and without a user `jac` attribute.  After every request: a user Jacobian attached by attribute, hook "
     "or assignment (latest hook/assignment first, the attribute after an unhook) must have been called exactly once with "
@@ -93,7 +93,7 @@ K_UNHOOK = "c16.unhook_then_jac_calls_none"
 K_BASEORDER = "c16.set_jac_base_order_flat_wrapper"
 
 # J: jac(t_k, y_k), H: hook_jacobian_call(fn_k), U: unhook_jacobian_call(), A: rhs.jac = fn_k, B / C: set_jac_base_order(4 / 2)
-HIST_OPS = ["J", "H", "U", "A", "B"]
+HIST_OPS = ["J", "H", "U", "A", "B", "K"]      # K: the wrapper is replaced by copy.copy(wrapper) (what OdeSystem(...) does with it)
 
 
 # --------------------------------------------------------------------------------------------------------------------
@@ -556,6 +556,20 @@ def _scen_hist(c, inst):
             unhook_pending = False
             base_order_pending = False
             fd_mode = False
+            continue
+        if op == "K":
+            import copy
+            st, r = run(copy.copy, rhs)
+            c.check(P + "copy_returns", st == "ok" and isinstance(r, DiffRHS), info=dict(pos=k, err=repr(r)[:120]))
+            if st == "ok" and isinstance(r, DiffRHS):
+                # the copy wraps the same function with the same attached Jacobian; its counters start again
+                rhs = r
+                answered = 0
+                requests_made = 0
+                unhook_pending = False
+                fd_mode = False
+                fd_time = None
+                base_order_pending = False
             continue
         if op == "U":
             st, r = run(rhs.unhook_jacobian_call)
